@@ -2,6 +2,7 @@ package main
 
 import (
 	"bytes"
+	"errors"
 	"io"
 	"net"
 	"os"
@@ -26,6 +27,8 @@ type fakeListener struct {
 	closed chan struct{}
 	once   sync.Once
 	addr   net.Addr
+	// Close closes and then reports an error (fault injection)
+	failClose bool
 }
 
 func newFakeListener(addrOK bool) *fakeListener {
@@ -54,6 +57,9 @@ func (l *fakeListener) Accept() (net.Conn, error) {
 
 func (l *fakeListener) Close() error {
 	l.once.Do(func() { close(l.closed) })
+	if l.failClose {
+		return errors.New("fake listener: close failed")
+	}
 	return nil
 }
 
